@@ -295,7 +295,7 @@ namespace BitSerializer::Convert::Detail
 		{
 			auto parseDatetimePart = [](const char* buf, const char* end, auto& outValue, std::optional<int> minValue = std::nullopt, std::optional<int> maxValue = std::nullopt, char delimiter = 0, bool isYear = false) -> const char*
 			{
-				if (buf != end && (std::isdigit(*buf) || isYear))
+				if (buf != end && (std::isdigit(static_cast<unsigned char>(*buf)) || isYear))
 				{
 					if (isYear && *buf == '+') {
 						++buf;
